@@ -384,6 +384,11 @@ def gen_eo_script(r, length, n=None):
             if r.random() < 0.5 and nvis > 2:
                 cand = r.randrange(2, nvis)
                 lines.append(f"{r.choice(['eo.inverse', 'eo.preimages'])} {cand}")
+            elif r.random() < 0.25 and all(math.ceil(l) <= math.floor(h) for l, h in zip(*cur)):
+                # an integer-typed argument array (Python lists of ints / int ndarrays are legal points)
+                y = [float(r.randint(math.ceil(l), math.floor(h))) for l, h in zip(*cur)]
+                lines.append("eo.arri " + fs2h(y)); nvis += 1
+                lines.append(f"{r.choice(['eo.inverse', 'eo.preimages'])} {nvis - 1}")
             else:
                 y = [l + r.random() * (h - l) for l, h in zip(*cur)]
                 lines.append("eo.arr " + fs2h(y)); nvis += 1
@@ -402,12 +407,12 @@ def gen_eo_script(r, length, n=None):
 def corr_eo(r, tier):
     scripts = [gen_eo_script(r, r.randint(3, 40 if tier == "quick" else 200)) for _ in range(150 if tier == "quick" else 1500)]
     # all short sequences over a small alphabet (N = 1 and N = 2)
-    alpha = ["eo.image 3fd0000000000000", "eo.image 3fe8000000000000", "eo.inverse 2", "eo.preimages 2", "eo.visible"]
+    alpha = ["eo.image 3fd0000000000000", "eo.image 3fe8000000000000", "eo.inverse 2", "eo.preimages 2", "eo.visible", "eo.inverse 3"]
     depth = 3 if tier == "quick" else 5
     for n in (1, 2):
         for seq in itertools.product(range(len(alpha)), repeat=depth):
             lo, hi = [-1.0] * n, [2.0] * n
-            sc = [f"eo.new {n} 3 {fs2h(lo)} {fs2h(hi)}", "eo.image 3fe0000000000000"]
+            sc = [f"eo.new {n} 3 {fs2h(lo)} {fs2h(hi)}", "eo.image 3fe0000000000000", "eo.arri " + fs2h([1.0] * n)]
             sc += [alpha[a] for a in seq] + ["eo.visible"]
             scripts.append(sc)
     allm, spans = [], []
